@@ -241,6 +241,7 @@ func c04NoLink(c *core.Case, n *vnet.Node, peer *vnet.Node, why string) {
 func c04Traffic(c *core.Case, r *c04Run, a, b *vnet.Node) {
 	ends := [2]*wire.End{r.conn.A, r.conn.B}
 	nodes := [2]*vnet.Node{a, b}
+	defer c04BackToBack(c, ends, nodes)
 	for d := 0; d < 2; d++ {
 		from, to := nodes[d], nodes[1-d]
 		payload := c.Bytes("traffic.payload", c.Int("traffic.len", 1, 1200))
@@ -821,4 +822,49 @@ func TestC04Relay(t *testing.T) {
 			return map[string]any{"kind": "relay of B's messages for C", "a_dials": aDials, "challenge_copied": useA, "A_err": fmt.Sprint(e.Err)}
 		})
 	})
+}
+
+
+// c04BackToBack: two frames of one direction reach the other end in a single
+// segment (a byte stream does not keep write boundaries): both must arrive.
+func c04BackToBack(c *core.Case, ends [2]*wire.End, nodes [2]*vnet.Node) {
+	if !c.Chance("traffic.back-to-back", 1, 2) {
+		return
+	}
+	d := c.Pick("traffic.b2b.dir", 2)
+	from, to := nodes[d], nodes[1-d]
+	var stream []byte
+	var want [][]byte
+	for k := 0; k < 2; k++ {
+		payload := c.Bytes("traffic.b2b.payload", c.Int("traffic.b2b.len", 1, 400))
+		f, err := from.Builder.NewFrameV1(from.IP(), to.IP(), frame.NetworkTraffic, nil, payload, nil)
+		if err != nil {
+			c.Fatalf("frame: %v", err)
+		}
+		w, _ := f.FrameDataWithMargins(0, 0)
+		want = append(want, append([]byte(nil), w...))
+		if err := ends[d].Link.Send(f); err != nil {
+			c.Fatalf("send: %v", err)
+		}
+		if err := ends[d].WaitParked(1); err != nil {
+			c.Fatalf("frame handed to the link of %s never reached the wire: %v", from.Name, err)
+		}
+		stream = append(stream, ends[d].Take(0)...)
+	}
+	if err := ends[1-d].Write(stream); err != nil {
+		c.Fatalf("write: %v", err)
+	}
+	for k := 0; k < 2; k++ {
+		select {
+		case g := <-to.SwitchIn:
+			got, _ := g.FrameDataWithMargins(0, 0)
+			if !bytes.Equal(got, want[k]) {
+				c.Fatalf("frame %d of two sent back to back by %s arrived altered at %s", k+1, from.Name, to.Name)
+			}
+			g.ReturnToPool()
+		case <-time.After(wire.Budget):
+			c.Fatalf("two frames sealed by %s's link end reached %s in one segment, frame %d of them never arrives", from.Name, to.Name, k+1)
+		}
+	}
+	c.Class("traffic-back-to-back")
 }
